@@ -6,7 +6,9 @@ realise every order type with short OIDs.
 
 from itertools import combinations, permutations
 
-# 14 candidate instances: before all roots, on a root, at depth 1 and 2 under
+# 15 candidate instances (one with a multi-octet sub-identifier, one under a
+# sibling whose number has the decimal digits of another root as a prefix:
+# 1.3.10 vs 1.3.1): before all roots, on a root, at depth 1 and 2 under
 # roots, inside a nested root, between roots, after the last populated root.
 U = [
     (1, 2, 9),
@@ -16,11 +18,12 @@ U = [
     (1, 3, 2, 1),
     (1, 3, 2, 2, 1),
     (1, 3, 2, 2, 2),
-    (1, 3, 2, 3),
+    (1, 3, 2, 300),
     (1, 3, 3, 1),
     (1, 3, 3, 2),
     (1, 3, 5, 1),
     (1, 3, 9, 1),
+    (1, 3, 10, 1),
     (1, 5, 7, 1),
     (1, 5, 8),
 ]
@@ -35,6 +38,7 @@ ROOTS = [
     (1, 3, 2, 2),
     (1, 3, 1, 1),
     (1, 3, 8),
+    (1, 3, 10),
     (1, 5, 7),
     (1, 9),
 ]
